@@ -1,25 +1,32 @@
-import Ds.Neighbor
+import DsProofs.UtilProofs
 
 /-!
 # C20 — the fit/score protocol (logic skeleton)
 
 What these theorems say about the Python code (`ShapleyImportance.fit` / `.score`, modelled by the
-state machine `Ds.Session`: `fit` overwrites the fitted fields, `score` reads them; `scoreFn` is the
-pure scoring function of the chosen method, `Data` is what `fit` stores and `Arg` what `score` gets):
+state machine `Ds.Session`: `fit` overwrites the fitted fields, `score` reads them; `scoreFn` (`f`) is
+the pure scoring function of the chosen method, `Data` is what `fit` stores and `Arg` what `score`
+gets).  `lastFit ops` (defined in `DsProofs/UtilProofs.lean`, characterised here by `C20_lastFit_def`,
+`C20_lastFit_none`, `C20_lastFit_some`) is the data of the last `fit` in the history `ops`.
 
 * `C20_score_pure`: a call of `score` leaves the object state unchanged (whether it succeeds or raises).
-* `C20_fit_overwrites`: after `fit d` the state is "fitted with `d`", whatever it was before.
+* `C20_fit_overwrites`: after `fit d` the state is "fitted with `d`", whatever it was before, and the
+  call returns nothing.
 * `C20_state_after`: after any history `ops` started from state `s` the state holds the data of the
-  LAST `fit` in `ops` (`lastFit`), or what `s` held if `ops` contains no `fit`.
+  LAST `fit` in `ops`, or what `s` held if `ops` contains no `fit`.
 * `C20_last_fit_wins`: after any history `ops` started from the fresh (unfitted) object, a final
   `score a` returns `scoreFn d a` where `d` is the data of the LAST `fit` in `ops`, and raises
   `ValueError` ("The fit function was not called first.") if `ops` contains no `fit`.
-  `C20_last_fit_wins_from` is the same from an arbitrary start state.
+  `C20_last_fit_wins_from` is the same from an arbitrary start state; `C20_last_fit_wins_run` reads the
+  value off the output list of `run`; `C20_last_fit_wins_split` spells "last fit" out as a
+  decomposition `ops = ops₁ ++ fit d :: ops₂` with no `fit` in `ops₂`.
 * `C20_repeat`: two consecutive `score a` calls (after any history) return the same value, and the
   state after them is the state before them.
 * `C20_independent`: in `ops₁ ++ [fit d] ++ scores`, where `scores` are score calls with arguments
   `as`, the outputs of those score calls are exactly `as.map (scoreFn d)` — they depend neither on
   the history `ops₁` before the last fit nor on each other — and the final state is "fitted with `d`".
+  `C20_independent_drop`: two different histories ending in the same `fit d` produce the same outputs
+  for the same subsequent score calls.
 -/
 
 open Ds Ds.Session
@@ -28,59 +35,47 @@ namespace DsProofs.C20
 
 variable {Data Arg Out : Type}
 
-/-- the data of the last `fit` in a history, if any -/
-def lastFit : List (Op Data Arg) → Option Data
-  | [] => none
-  | .fit d :: ops => (match lastFit ops with | some d' => some d' | none => some d)
-  | .score _ :: ops => lastFit ops
+/-- definition of `lastFit`, verbatim -/
+theorem C20_lastFit_def (d : Data) (a : Arg) (ops : List (Op Data Arg)) :
+    lastFit ([] : List (Op Data Arg)) = none
+      ∧ lastFit (.fit d :: ops) = (match lastFit ops with | some d' => some d' | none => some d)
+      ∧ lastFit (.score a :: ops) = lastFit ops := ⟨rfl, rfl, rfl⟩
 
-/-- what a `score a` call returns in a state whose fitted data is `o` -/
-def scoreOut (f : Data → Arg → Out) (o : Option Data) (a : Arg) : Option (Except Err Out) :=
-  match o with
-  | none => some (.error Err.valueError)
-  | some d => some (.ok (f d a))
+/-- `lastFit` is `none` exactly when the history contains no `fit` -/
+theorem C20_lastFit_none (ops : List (Op Data Arg)) : lastFit ops = none ↔ ∀ d, Op.fit d ∉ ops :=
+  lastFit_none_iff ops
+
+/-- `lastFit` is the data of the last `fit`: nothing but scores after it -/
+theorem C20_lastFit_some (ops₁ ops₂ : List (Op Data Arg)) (d : Data) (h : ∀ d', Op.fit d' ∉ ops₂) :
+    lastFit (ops₁ ++ .fit d :: ops₂) = some d :=
+  lastFit_append_fit ops₁ ops₂ d h
 
 /-- **C20a.** `score` does not modify the state. -/
 theorem C20_score_pure (f : Data → Arg → Out) (s : State Data) (a : Arg) :
-    (step f s (.score a)).1 = s := by
-  unfold step
-  cases s.fitted <;> rfl
+    (step f s (.score a)).1 = s :=
+  step_score_fst f s a
 
 /-- `fit` overwrites whatever was fitted before and returns nothing -/
 theorem C20_fit_overwrites (f : Data → Arg → Out) (s : State Data) (d : Data) :
     step f s (.fit d) = ({ fitted := some d }, none) := rfl
 
-/-- the value returned by `score` -/
-theorem step_score_out (f : Data → Arg → Out) (s : State Data) (a : Arg) :
-    (step f s (.score a)).2 = scoreOut f s.fitted a := by
-  unfold step scoreOut
-  cases s.fitted <;> rfl
-
-theorem run_append (f : Data → Arg → Out) (s : State Data) (ops₁ ops₂ : List (Op Data Arg)) :
-    run f s (ops₁ ++ ops₂)
-      = ((run f (run f s ops₁).1 ops₂).1, (run f s ops₁).2 ++ (run f (run f s ops₁).1 ops₂).2) := by
-  induction ops₁ generalizing s with
-  | nil => rfl
-  | cons op ops ih => simp only [List.cons_append, run, ih]
-
 /-- **C20b (state form).** After a history the fitted data is that of the last `fit` of the history,
 or the initial one if the history contains no `fit`. -/
 theorem C20_state_after (f : Data → Arg → Out) (s : State Data) (ops : List (Op Data Arg)) :
-    (run f s ops).1.fitted = ((lastFit ops).orElse fun _ => s.fitted) := by
-  induction ops generalizing s with
-  | nil => rfl
-  | cons op ops ih =>
-    cases op with
-    | fit d =>
-      simp only [run, step, ih, lastFit]
-      cases lastFit ops <;> rfl
-    | score a =>
-      simp only [run, ih, C20_score_pure, lastFit]
+    (run f s ops).1.fitted = (match lastFit ops with | some d => some d | none => s.fitted) := by
+  rw [run_state]
+  cases lastFit ops <;> rfl
 
 /-- **C20b (general start state).** -/
 theorem C20_last_fit_wins_from (f : Data → Arg → Out) (s : State Data) (ops : List (Op Data Arg)) (a : Arg) :
-    (step f (run f s ops).1 (.score a)).2 = scoreOut f ((lastFit ops).orElse fun _ => s.fitted) a := by
+    (step f (run f s ops).1 (.score a)).2
+      = match (match lastFit ops with | some d => some d | none => s.fitted) with
+        | some d => some (.ok (f d a))
+        | none => some (.error Err.valueError) := by
   rw [step_score_out, C20_state_after]
+  cases lastFit ops with
+  | some d => rfl
+  | none => cases s.fitted <;> rfl
 
 /-- **C20b.** On a fresh object, after any history `ops`, `score a` returns `scoreFn d a` for the data
 `d` of the LAST `fit` in `ops`; it raises `ValueError` if there was no `fit`. -/
@@ -101,37 +96,18 @@ theorem C20_last_fit_wins_run (f : Data → Arg → Out) (ops : List (Op Data Ar
   rw [run_append, ← C20_last_fit_wins]
   rfl
 
-/-- `lastFit` really is the last `fit`: if the history is `ops₁ ++ fit d :: ops₂` with no `fit` in
-`ops₂`, then `lastFit = some d`; if there is no `fit` at all it is `none`. -/
-theorem lastFit_none_iff (ops : List (Op Data Arg)) :
-    lastFit ops = none ↔ ∀ d, Op.fit d ∉ ops := by
-  induction ops with
-  | nil => simp [lastFit]
-  | cons op ops ih =>
-    cases op with
-    | fit d =>
-      simp only [lastFit, List.mem_cons, not_or]
-      constructor
-      · intro h; cases hl : lastFit ops <;> simp [hl] at h
-      · intro h; exact absurd rfl (h d).1
-    | score a =>
-      simp only [lastFit, ih, List.mem_cons, not_or]
-      constructor
-      · intro h d
-        refine ⟨?_, h d⟩
-        intro h'
-        cases h'
-      · intro h d; exact (h d).2
-
-theorem lastFit_append_fit (ops₁ ops₂ : List (Op Data Arg)) (d : Data) (h : ∀ d', Op.fit d' ∉ ops₂) :
-    lastFit (ops₁ ++ .fit d :: ops₂) = some d := by
-  have h2 := (lastFit_none_iff ops₂).mpr h
-  induction ops₁ with
-  | nil => simp [lastFit, h2]
-  | cons op ops ih =>
-    cases op with
-    | fit d' => simp [lastFit, ih]
-    | score a => simpa [lastFit] using ih
+/-- "last fit" spelled out: the history is `ops₁ ++ fit d :: ops₂` with no `fit` in `ops₂`; or there
+is no `fit` at all -/
+theorem C20_last_fit_wins_split (f : Data → Arg → Out) (a : Arg) :
+    (∀ (ops₁ ops₂ : List (Op Data Arg)) (d : Data), (∀ d', Op.fit d' ∉ ops₂) →
+        (step f (run f {} (ops₁ ++ .fit d :: ops₂)).1 (.score a)).2 = some (.ok (f d a)))
+      ∧ (∀ ops : List (Op Data Arg), (∀ d, Op.fit d ∉ ops) →
+        (step f (run f {} ops).1 (.score a)).2 = some (.error Err.valueError)) := by
+  refine ⟨?_, ?_⟩
+  · intro ops₁ ops₂ d h
+    rw [C20_last_fit_wins, lastFit_append_fit ops₁ ops₂ d h]
+  · intro ops h
+    rw [C20_last_fit_wins, (lastFit_none_iff ops).mpr h]
 
 /-- **C20c.** Repeating a `score` call with the same argument gives the same value, and the state is
 untouched. -/
@@ -147,14 +123,6 @@ theorem C20_repeat (f : Data → Arg → Out) (s : State Data) (ops : List (Op D
     rw [h1]
   · show (step f r₁.1 (.score a)).1 = s₁
     rw [C20_score_pure, h1]
-
-/-- `run` over score calls only: state unchanged, outputs are the individual scores -/
-theorem run_scores (f : Data → Arg → Out) (s : State Data) (as : List Arg) :
-    run f s (as.map Op.score) = (s, as.map (scoreOut f s.fitted)) := by
-  induction as with
-  | nil => rfl
-  | cons a as ih =>
-    simp only [List.map_cons, run, C20_score_pure, ih, step_score_out]
 
 /-- **C20d.** The outputs of the score calls after a `fit d` are `scoreFn d` of their arguments:
 independent of everything before that `fit`, and of each other. -/
@@ -172,19 +140,8 @@ theorem C20_independent_drop (f : Data → Arg → Out) (s s' : State Data) (ops
     (d : Data) (as : List Arg) :
     (run f s (ops₁ ++ [.fit d] ++ as.map Op.score)).2.drop (ops₁.length + 1)
       = (run f s' (ops₁' ++ [.fit d] ++ as.map Op.score)).2.drop (ops₁'.length + 1) := by
-  have hlen : ∀ (s : State Data) (ops : List (Op Data Arg)), (run f s ops).2.length = ops.length := by
-    intro s ops
-    induction ops generalizing s with
-    | nil => rfl
-    | cons op ops ih => simp [run, ih]
-  have key : ∀ (A : List (Option (Except Err Out))) (n : Nat) x M, A.length = n →
-      (A ++ [x] ++ M).drop (n + 1) = M := by
-    intro A n x M h
-    subst h
-    induction A with
-    | nil => rfl
-    | cons y A ih => simp
-  rw [C20_independent, C20_independent, key _ _ _ _ (hlen _ _), key _ _ _ _ (hlen _ _)]
+  rw [C20_independent, C20_independent, drop_append_singleton _ _ _ _ (run_length _ _ _),
+    drop_append_singleton _ _ _ _ (run_length _ _ _)]
 
 /-! ### Examples -/
 
